@@ -164,14 +164,36 @@ def run(repo, chk):
     for sp, (tok, cls) in SPEC[0][1].items():
         chk.expect(cls_token.get(cls) == f'OpToken.{tok}', 'C11.L5', f'{cls}.token',
                    f'class token is {cls_token.get(cls)}', OPERATORS)
-    op_paths = [p for p in paths if any(e.kind == 'cond' and 'OneOf(operators)' in e.text and e.truth for e in p.events)]
-    no_paths = [p for p in paths if any(e.kind == 'cond' and 'OneOf(operators)' in e.text and not e.truth for e in p.events)]
+    # the table may be a local (`operators = {...}`) or spelled out / hoisted to module level: what matters is that the
+    # token tested by OneOf(<table>) selects the class from the same table
+    def table_text(node):
+        if isinstance(node, ast.Dict):
+            return 'tbl:' + src(node)
+        if isinstance(node, ast.Name):
+            for n in ast.walk(f2):
+                if isinstance(n, ast.Assign) and any(isinstance(t, ast.Name) and t.id == node.id for t in n.targets) and isinstance(n.value, ast.Dict):
+                    return 'tbl:' + src(n.value)
+        return 'expr:' + src(node)
+
+    def oneof_table(e):
+        if e.kind != 'cond' or 'OneOf(' not in e.text or not isinstance(e.node, ast.AST):
+            return None
+        for n in ast.walk(e.node):
+            if isinstance(n, ast.Call) and src(n.func) == 'OneOf' and len(n.args) == 1:
+                return table_text(n.args[0])
+        return None
+    op_paths = [p for p in paths if any(oneof_table(e) and e.truth for e in p.events)]
+    no_paths = [p for p in paths if any(oneof_table(e) and not e.truth for e in p.events)]
     ok = bool(op_paths) and bool(no_paths)
     for p in op_paths:
         calls = [e for e in p.events if e.kind == 'call' and e.func.startswith('ps_expr')]
         ret = [e for e in p.events if e.kind == 'return']
         ok = ok and [c.func for c in calls] == ['ps_expr2'] and all(c.argtexts == ['ctx'] for c in calls)
-        ok = ok and ret and src(ret[-1].value) == 'operators[op.token](op.span, await expect(ps_expr2(ctx)))'
+        tested = [oneof_table(e) for e in p.events if oneof_table(e)]
+        rv = ret[-1].value if ret else None
+        ok = ok and isinstance(rv, ast.Call) and isinstance(rv.func, ast.Subscript) and src(rv.func.slice) == 'op.token' \
+            and table_text(rv.func.value) == tested[0] and tested[0].startswith('tbl:') \
+            and [src(a) for a in rv.args] == ['op.span', 'await expect(ps_expr2(ctx))'] and not rv.keywords
     for p in no_paths:
         calls = [e for e in p.events if e.kind == 'call' and e.func.startswith('ps_expr')]
         ok = ok and [c.func for c in calls] == ['ps_expr1'] and all(c.argtexts == ['ctx'] for c in calls)
